@@ -285,7 +285,7 @@ def u3(cx):
     return res
 
 
-def u6(cx):
+def u6(cx, tags=('MutRc<Option<_>>', 'MutArc<Option<_>>'), prop=None, rule='U6'):
     """delivery through a shared slot is serialised with unsubscribe: the downstream call is made while the
     guard of the slot's cell is held, so unsubscribe() (which takes the same cell) cannot return while a
     notification is still on its way"""
@@ -294,7 +294,7 @@ def u6(cx):
     n = 0
     for im in cx.observer_impls():
         tag = roles.impl_tag(cx, im)
-        shared = tag in ('MutRc<Option<_>>', 'MutArc<Option<_>>') or (cx.control and tag == 'verif_controls::EarlyReleaseSlot')
+        shared = tag in tags or (cx.control and tag == 'verif_controls::EarlyReleaseSlot')
         if not shared:
             continue
         n += 1
@@ -305,10 +305,10 @@ def u6(cx):
             downs = [x for x in g.nodes if down_method(x) == meth]
             bad = [x for x in downs if not held[x['id']]]
             ok = bool(downs) and not bad
-            res.append(Finding(ID, 'U6', cx.label(fn), ok,
+            res.append(Finding(prop or ID, rule, cx.label(fn), ok,
                                'delivers while holding the slot guard' if ok else
                                'the notification is delivered after the slot guard was released: an unsubscribe() on another thread can return while it is still on its way to the subscriber',
                                fn['span'], [node_desc(g, x) for x in bad]))
     if not cx.control and n < 2:
-        res.append(Finding(ID, 'U6', 'floor', False, 'shared slot observer impls not found'))
+        res.append(Finding(prop or ID, rule, 'floor', False, 'shared slot observer impls not found'))
     return res
